@@ -28,6 +28,10 @@ Example pin_request_object :
   GRO_BRANCH_TESTS = ["field.is_primitive"; "field.enum"; "field.type in _enclosing or field.type == message"] /\
   GRO_RECURSIVE_KWARGS = ["_enclosing=_enclosing + (message,)"; "field_name_prefix=field_name"].
 Proof. repeat split; reflexivity. Qed.
+Example pin_index :
+  INDEX_STORE_SRC = ["if getattr(snippet.metadata.client_method, 'async'): method['async'] = snippet else: method['sync'] = snippet"] /\
+  INDEX_GET_SRC = "return method['sync' if sync else 'async']".
+Proof. split; reflexivity. Qed.
 Example pin_region_tag :
   REGION_TAG_SRC = "f'{api_short_name}_{api_version}_generated_{service_name}_{rpc_name}_{sync_or_async}'" /\
   REGION_TAG_INTERNAL_SRC = "region_tag += '_internal'".
@@ -160,6 +164,32 @@ Theorem one_sync_one_async version tr svcs s r :
 Proof.
   intros ND Hs Hr l. unfold l. rewrite (specs_of_char version tr svcs s r ND Hs Hr).
   destruct (spec_kinds_cases tr) as [[G K]|[[G [R K]]|[G [R K]]]]; rewrite K; simpl; repeat split; intros; try congruence; reflexivity.
+Qed.
+
+(* the sync client's docstring gets the rpc's synchronous sample and the asyncio client's the asyncio sample — for every rpc,
+   internal ones (whose tags end in _internal) included: the slot depends on the transport, never on the tag *)
+Lemma filter_andb {A} (p q : A -> bool) l : filter (fun x => p x && q x) l = filter q (filter p l).
+Proof.
+  induction l as [|a l IH]; [reflexivity|]. simpl. destruct (p a); simpl; [destruct (q a); now rewrite IH | exact IH].
+Qed.
+
+Theorem index_slot_spec version tr svcs s r :
+  names_distinct svcs -> In s svcs -> In r (sv_rpcs s) ->
+  let added := generate_sample_specs version tr svcs in
+  (mem_str "grpc" tr = true ->
+     index_get added (sv_name s) (rp_name r) true = Some (mk_spec version s "grpc" r) /\
+     index_get added (sv_name s) (rp_name r) false = Some (mk_spec version s "grpc-async" r)) /\
+  (mem_str "grpc" tr = false -> mem_str "rest" tr = true ->
+     index_get added (sv_name s) (rp_name r) true = Some (mk_spec version s "rest" r) /\
+     index_get added (sv_name s) (rp_name r) false = None).
+Proof.
+  intros ND Hs Hr added.
+  destruct (one_sync_one_async version tr svcs s r ND Hs Hr) as (G & R & _).
+  unfold index_get. split.
+  - intro Hg. destruct (G Hg) as [E _]. unfold specs_of in E. fold added in E.
+    rewrite !filter_andb. cbv beta. rewrite filter_andb in E. cbv beta in E. rewrite E. split; reflexivity.
+  - intros Hg Hrest. destruct (R Hg Hrest) as [E _]. unfold specs_of in E. fold added in E.
+    rewrite !filter_andb. cbv beta. rewrite filter_andb in E. cbv beta in E. rewrite E. split; reflexivity.
 Qed.
 
 (* a string without underscore in front of an underscore is determined *)
@@ -651,6 +681,13 @@ Proof.
     + constructor; [intros [H|[]]; discriminate|]. constructor; [intros []|constructor].
     + constructor; [intros []|constructor].
 Qed.
+
+Example ex_index_internal :
+  option_map sp_tag (index_get (generate_sample_specs "v1" ["grpc"; "rest"] ex_svcs) "Archive" "GetArchive" true)
+    = Some "archive-library_v1_generated_Archive_GetArchive_sync_internal" /\
+  option_map sp_tag (index_get (generate_sample_specs "v1" ["grpc"; "rest"] ex_svcs) "Archive" "GetArchive" false)
+    = Some "archive-library_v1_generated_Archive_GetArchive_async_internal".
+Proof. vm_compute. split; reflexivity. Qed.
 
 Definition ex_lines : list string :=
   ["# Generated code. DO NOT EDIT!"; ""; "# [START library_v1_generated_Catalog_GetItem_sync]"; "from google.example import library_v1"; "";
